@@ -5,6 +5,7 @@ from .. import guards as G
 from ..core import (walk, apath, show, const_of, is_null, last_field, strip_addr, truth_of, AnalysisBroken, same_expr)
 from ..aiolib import *
 from ..locks import lockinfo, LOCK, UNLOCK
+from ..pathsim import Sim, Client
 
 EXPLANATION = ("C15: NNG_FLAG_NONBLOCK is plumbed to a zero timeout and mapped back to NNG_EAGAIN; no operation function "
                "calls nni_aio_start on a path on which it then completes the same aio successfully (a zero-timeout caller "
@@ -521,6 +522,241 @@ def rule_r5(ctx):
 
 
 
+
+# ---------------------------------------------------------------------------
+# R7: a descriptor is lowered only when its whole readiness predicate is false
+
+# Frozen from reading (DESIGN.md Appendix A.1): the conjunction under which a pollable is *not* ready -- the negation of the
+# "raised iff" disjunction.  kind: full/empty (queue or list), false (boolean flag), null (pointer field).
+# master: the embedded context of the socket whose state the socket-level descriptor mirrors.
+NOT_READY = {
+    "req0_sock.writable": ([("empty", "req0_sock.ready_pipes")], None),
+    "req0_sock.readable": ([("null", "req0_ctx.rep_msg")], "req0_sock.master"),
+    "rep0_sock.readable": ([("empty", "rep0_sock.recvpipes")], None),
+    "resp0_sock.readable": ([("empty", "resp0_sock.recvpipes")], None),
+    "push0_sock.writable": ([("full", "push0_sock.wq"), ("empty", "push0_sock.pl")], None),
+    "pull0_sock.readable": ([("empty", "pull0_sock.pl")], None),
+    "pair0_sock.writable": ([("false", "pair0_sock.wr_ready"), ("full", "pair0_sock.wmq")], None),
+    "pair0_sock.readable": ([("false", "pair0_sock.rd_ready"), ("empty", "pair0_sock.rmq")], None),
+    "pair1_sock.writable": ([("false", "pair1_sock.wr_ready"), ("full", "pair1_sock.wmq")], None),
+    "pair1_sock.readable": ([("false", "pair1_sock.rd_ready"), ("empty", "pair1_sock.rmq")], None),
+    "sub0_sock.readable": ([("empty", "sub0_ctx.lmq")], "sub0_sock.master"),
+    "bus0_sock.can_recv": ([("empty", "bus0_sock.recv_msgs")], None),
+    "surv0_sock.readable": ([("empty", "surv0_ctx.recv_lmq")], "surv0_sock.ctx"),
+}
+
+
+class _EvidenceClient(Client):
+    """State: (frozenset of (field, holds?) facts, frozenset of pending (clear position, field)).
+    `holds` True means the conjunct of the not-ready predicate over that field is established."""
+
+    def __init__(self, fn, prog, conj, poll, helpers):
+        self.fn = fn
+        self.prog = prog
+        self.kinds = {f: k for k, f in conj}
+        self.poll = poll
+        self.helpers = helpers
+        self.viol = {}       # (clear pos, field) -> end position
+        self.clears = set()
+
+    def init(self, sim):
+        return (frozenset(), frozenset())
+
+    def _set(self, st, fld, val):
+        facts, pend = st
+        facts = frozenset((f, v) for f, v in facts if f != fld)
+        if val is not None:
+            facts = facts | {(fld, val)}
+        return (facts, pend)
+
+    def _arg_field(self, n, i=0):
+        if len(n.get("args") or ()) <= i or n["args"][i] is None:
+            return None
+        return last_field(self.fn.expand(n["args"][i]))
+
+    def branch(self, st, subj, val, sim):
+        nz = val[0] in ("NZ", "NE") if val[0] != "NE" else None
+        if val[0] == "NZ":
+            nz = True
+        elif val[0] == "Z" or (val[0] == "EQ" and val[1] == 0):
+            nz = False
+        elif val[0] == "EQ":
+            nz = True
+        elif val[0] == "NE" and val[1] == 0:
+            nz = True
+        else:
+            nz = None
+        k = subj.get("k")
+        if k == "call":
+            f = subj.get("fn")
+            fld = self._arg_field(subj)
+            if fld not in self.kinds or nz is None:
+                return st
+            kind = self.kinds[fld]
+            if f == "nni_lmq_full" and kind == "full":
+                return self._set(st, fld, nz)
+            if f in ("nni_lmq_empty", "nni_list_empty") and kind == "empty":
+                return self._set(st, fld, nz)
+            if f in ("nni_list_first", "nni_list_last") and kind == "empty":
+                return self._set(st, fld, not nz)
+            if f == "nni_lmq_get" and kind == "empty":
+                # a refused get is evidence of emptiness; a successful one leaves the question open
+                return self._set(st, fld, True if nz else None)
+            if f == "nni_lmq_put" and kind == "full":
+                return self._set(st, fld, True if nz else None)
+            if f == "nni_lmq_len" and kind == "empty":
+                return self._set(st, fld, not nz)
+            return st
+        if k == "mem":
+            fld = last_field(subj)
+            if fld in self.kinds and nz is not None and self.kinds[fld] in ("false", "null"):
+                return self._set(st, fld, not nz)
+        return st
+
+    def node(self, st, n, sim):
+        k = n.get("k")
+        fn = self.fn
+        if k == "asg" and n["lhs"].get("k") == "mem":
+            fld = last_field(n["lhs"])
+            if fld in self.kinds:
+                rhs = fn.expand(n["rhs"])
+                cv = const_of(rhs)
+                if n.get("op") == "=" and self.kinds[fld] in ("false", "null") and (cv is not None or is_null(rhs)):
+                    return self._set(st, fld, (cv == 0) if cv is not None else True)
+                return self._set(st, fld, None)
+            return st
+        if k != "call":
+            return st
+        f = n.get("fn")
+        if f == "nni_pollable_clear" and self._arg_field(n) == self.poll:
+            facts, pend = st
+            have = dict(facts)
+            self.clears.add(sim.cur)
+            missing = [fld for fld in self.kinds if have.get(fld) is not True]
+            return (facts, pend | {(sim.cur, fld) for fld in missing})
+        if f == "nni_pollable_raise" and self._arg_field(n) == self.poll:
+            # a later raise supersedes the clear
+            return (st[0], frozenset())
+        if f in (LOCK, UNLOCK):
+            return self._settle(st, sim.cur) if f == UNLOCK else st
+        fld = self._arg_field(n)
+        if fld in self.kinds:
+            if f == "nni_lmq_flush" and self.kinds[fld] == "empty":
+                return self._set(st, fld, True)
+            if f in LIST_MUT + LMQ_MUT + ("nni_list_remove", "nni_list_node_remove"):
+                # tested put/get are refined on the branch; here the content changed
+                return self._set(st, fld, None)
+        h = self.helpers.get(f)
+        if h:
+            for fld2, v in h.items():
+                if fld2 in self.kinds:
+                    st = self._set(st, fld2, v)
+        return st
+
+    def _settle(self, st, pos):
+        facts, pend = st
+        have = dict(facts)
+        for (cpos, fld) in pend:
+            if have.get(fld) is not True:
+                self.viol.setdefault((cpos, fld), pos)
+        return (facts, frozenset())
+
+    def at_exit(self, st, sim, via):
+        self._settle(st, (self.fn.exit, 0))
+
+
+def helper_effects(prog, f, fields):
+    """{field: True/None}: what a file-local helper does to the tracked fields: True when it establishes the not-ready
+    conjunct on every path (flag stored false / pointer stored NULL, dominating its exit), None when it may change it."""
+    out = {}
+    for t in f.assigns():
+        if t.node["lhs"].get("k") != "mem":
+            continue
+        fld = last_field(t.node["lhs"])
+        if fld not in fields:
+            continue
+        rhs = f.expand(t.node["rhs"])
+        cv = const_of(rhs)
+        est = t.node.get("op") == "=" and fields[fld] in ("false", "null") and ((cv is not None and cv == 0) or is_null(rhs))
+        if est and f.dominated_by((f.exit, 0), blocked=lambda b, i, e, t=t: (b, i) == (t.b, t.i)) and fld not in out:
+            out[fld] = True
+        else:
+            out[fld] = None
+    for c in f.calls():
+        if c.node.get("fn") in LIST_MUT + LMQ_MUT + ("nni_list_remove", "nni_list_node_remove") and c.node["args"]:
+            fld = last_field(f.expand(c.node["args"][0]))
+            if fld in fields:
+                out[fld] = None
+    return out
+
+
+def rule_r7(ctx):
+    r = ctx.rule("C15.R7", "T1", "a poll descriptor is lowered only when its whole readiness predicate is false: every "
+                 "nni_pollable_clear is reached, on every path, with each conjunct of the not-ready condition established "
+                 "(by a test, a refused put/get, a flush or a store) by the end of its critical section, and -- for a "
+                 "descriptor that mirrors the socket's own context -- only for that context", floor=30)
+    prog = ctx.prog
+    for poll, (conj, master) in NOT_READY.items():
+        if {f for _, f in conj} != SUPPORT.get(poll):
+            raise AnalysisBroken("not-ready predicate of %s does not cover its support set" % poll)
+    for poll, (conj, master) in sorted(NOT_READY.items()):
+        fields = {f: k for k, f in conj}
+        for f in prog.functions:
+            if f.cfg_failed:
+                continue
+            clears = [s for s in f.calls("nni_pollable_clear") if s.node["args"] and last_field(f.expand(s.node["args"][0])) == poll]
+            if not clears:
+                continue
+            if f.name.endswith(("_init", "_fini")):
+                continue
+            helpers = {}
+            for c in f.calls():
+                h = prog.resolve(f, c.node["fn"]) if c.node.get("fn") else None
+                if h is not None and h.file == f.file and h is not f and not h.cfg_failed and h.static:
+                    eff = helper_effects(prog, h, fields)
+                    if eff:
+                        helpers[h.name] = eff
+            cl = _EvidenceClient(f, prog, conj, poll, helpers)
+            sim = Sim(f, cl, max_states=20000)
+            sim.run()
+            if sim.truncated:
+                raise AnalysisBroken("evidence simulation truncated in %s" % f.name)
+            ef = G.edge_facts(f) if master else None
+            for s in clears:
+                pos = (s.b, s.i)
+                bad = sorted(fld for (cpos, fld) in cl.viol if cpos == pos)
+                if master and not bad:
+                    # the test must be about the socket's own context
+                    mfld = master.split(".", 1)[1]
+                    ok = False
+                    for bid, k, atom, val in ef:
+                        if val and atom.get("k") == "bin" and atom.get("op") == "==" and G.dominated(f, pos, {bid: k}) and any(
+                                m.get("k") == "mem" and last_field(m) == master for m in walk(atom)):
+                            ok = True
+                    # or the state is reached through the embedded context itself (sock->master.lmq)
+                    for m in walk(f.blocks[s.b].elems[s.i]) if not ok else ():
+                        pass
+                    if not ok:
+                        through = [x for x in f.sites() if x.node.get("k") == "mem" and last_field(x.node) in fields and any(
+                            y.get("k") == "mem" and last_field(y) == master for y in walk(x.node))]
+                        ok = bool(through) and not [x for x in f.sites() if x.node.get("k") == "mem" and last_field(x.node) in fields
+                                                    and not any(y.get("k") == "mem" and last_field(y) == master for y in walk(x.node))]
+                    if not ok:
+                        ctx.fail(r, f, "%s cleared for any context" % poll, s.line,
+                                 "nni_pollable_clear(%s) at line %s is not confined to the socket's own context (%s): the state of "
+                                 "another context lowers the socket's descriptor while a socket-level receive would succeed"
+                                 % (poll, s.line, mfld))
+                        continue
+                if bad:
+                    end = cl.viol[(pos, bad[0])]
+                    ctx.fail(r, f, "%s cleared without %s" % (poll, ",".join("%s(%s)" % (fields[b_], b_.split(".")[1]) for b_ in bad)), s.line,
+                             "nni_pollable_clear(%s) at line %s is reached on a path where %s is not established by the end of the "
+                             "critical section (line %s): the descriptor stops polling ready although the operation would succeed"
+                             % (poll, s.line, " and ".join("%s %s" % (b_.split(".")[1], fields[b_]) for b_ in bad), f.line_of(*end)))
+                else:
+                    r.ob(f, "clear of %s line %s: %s established" % (poll, s.line, ", ".join("%s %s" % (x.split(".")[1], fields[x]) for x in fields)))
+
+
 def rule_r6(ctx):
     r = ctx.rule("C15.R6", "T2", "the raw sockets' queue re-evaluates its two poll descriptors whenever it changes: every function of "
                  "msgqueue.c that takes mq_lock and changes the queue's length, capacity or waiter lists calls "
@@ -567,3 +803,4 @@ def run(ctx):
     ctx.guard(rule_r4)
     ctx.guard(rule_r5)
     ctx.guard(rule_r6)
+    ctx.guard(rule_r7)
